@@ -861,7 +861,8 @@ def obligations(tier, build):
         for kind in kinds:
             obs.append(Obligation("validator/%s/%s" % (cfg, kind), validator_harness(cfg, kind), stubs=STUBS,
                                   bounds={"configuration": cfg, "value kind": kind}, witness_every=0,
-                                  leverage="numeric payloads, protocol outcomes", fast_fp=True, max_paths=5000))
+                                  leverage="numeric payloads, protocol outcomes", fast_fp=True, max_paths=5000,
+                                  query_timeout_ms=60000, path_wall_s=180))
     for which in ("read", "write"):
         obs.append(Obligation("access/%s" % which, access_harness(which), stubs=STUBS, witness_every=0,
                               bounds={"default kinds": "constant, TraitListObject, TraitDictObject, TraitSetObject, callable_and_args, callable (method)"},
